@@ -134,6 +134,18 @@ def select_case(repo: Repo, relpath: str, m: ast.Match, v: Any) -> Optional[ast.
     return None
 
 
+def select_cases(repo: Repo, relpath: str, m: ast.Match, v: Any) -> list[ast.match_case]:
+    """Every case `v` may select: a guarded case whose pattern matches may or may not be taken, so the search goes on
+    after it; it stops at the first unguarded match."""
+    out = []
+    for c in m.cases:
+        if pattern_matches(repo, relpath, c.pattern, v):
+            out.append(c)
+            if c.guard is None:
+                break
+    return out
+
+
 def arm_result(body: list[ast.stmt]) -> tuple[str, Optional[ast.AST]]:
     """
     Classifies a straight-line arm: ('return', expr) / ('raise', exc) /
